@@ -278,6 +278,11 @@ def main(argv=None):
     os.makedirs(edir, exist_ok=True)
     with open(os.path.join(edir, "%s.json" % prop), "w") as fh:
         json.dump(ev, fh, indent=1, default=repr, ensure_ascii=False)
+    if tier == "thorough":
+        # keep the last thorough result next to the (usually quick) main evidence file
+        os.makedirs(os.path.join(edir, "thorough"), exist_ok=True)
+        with open(os.path.join(edir, "thorough", "%s.json" % prop), "w") as fh:
+            json.dump(ev, fh, indent=1, default=repr, ensure_ascii=False)
     print("%s %s: cases=%d/%d evals=%d nontrivial=%d outcomes=%d states=%d "
           "transitions=%d traces=%d violations=%d known=%d exhaustive=%s wall=%.1fs"
           % (prop, tier, merged.cases, ncases, merged.evals, merged.nontrivial,
